@@ -163,7 +163,13 @@ func vf18CheckStart(dir string, sf *obfs4ServerFactory) (vf18Ident, string) {
 		if ca.iatMode != got.IAT {
 			return fmt.Sprintf("VIOL[c18-parse-%s]: client parsing the %s form obtains iat-mode %d, the bridge runs %d", form, form, ca.iatMode, got.IAT)
 		}
+		if vf18Keep != nil {
+			vf18Keep.keepClient(form, cert, ca, got, pub)
+		}
 		return ""
+	}
+	if vf18Keep != nil {
+		vf18Keep.keepServer(dir, sf, got, cert, iatStr)
 	}
 	if msg := parse("cert", args); msg != "" {
 		return got, msg
@@ -255,4 +261,91 @@ func vf18TempDir(pattern string) string {
 		d = r
 	}
 	return d
+}
+
+// ---- results must not change after they were returned ------------------------------
+
+// vf18Keep, when set, collects every object handed out by ParseArgs and
+// ServerFactory during a case; verify() re-checks all of them.
+var vf18Keep *vf18Registry
+
+type vf18KeptClient struct {
+	desc   string
+	form   string
+	cert   string
+	ca     *obfs4ClientArgs
+	nodeID [20]byte
+	pub    [32]byte
+	iat    int
+	later  int // cert-form parses of a DIFFERENT cert made after this result was returned
+}
+
+type vf18KeptServer struct {
+	desc    string
+	sf      *obfs4ServerFactory
+	args    *pt.Args
+	id      vf18Ident
+	cert    string
+	iatStr  string
+	pubWant [32]byte
+}
+
+type vf18Registry struct {
+	calls      int
+	clients    []*vf18KeptClient
+	servers    []*vf18KeptServer
+	reverified int // re-verifications of a cert-form result after >= 1 later parse of a different cert
+}
+
+func (r *vf18Registry) keepClient(form, cert string, ca *obfs4ClientArgs, id vf18Ident, pub []byte) {
+	r.calls++
+	if form == "cert" {
+		for _, k := range r.clients {
+			if k.cert != cert {
+				k.later++
+			}
+		}
+	}
+	k := &vf18KeptClient{desc: fmt.Sprintf("result #%d of ParseArgs(%s form, cert %s.., identity %v)", r.calls, form, cert[:10], id), form: form, cert: cert, ca: ca, nodeID: id.NodeID, iat: id.IAT}
+	copy(k.pub[:], pub)
+	r.clients = append(r.clients, k)
+}
+
+func (r *vf18Registry) keepServer(dir string, sf *obfs4ServerFactory, id vf18Ident, cert, iatStr string) {
+	r.calls++
+	k := &vf18KeptServer{desc: fmt.Sprintf("result #%d of ServerFactory(%s) presenting %v", r.calls, filepath.Base(dir), id), sf: sf, args: sf.Args(), id: id, cert: cert, iatStr: iatStr}
+	copy(k.pubWant[:], id.pub())
+	r.servers = append(r.servers, k)
+}
+
+// verify re-checks every object handed out so far: none may have changed.
+func (r *vf18Registry) verify(after string) string {
+	for _, k := range r.clients {
+		if k.ca.nodeID == nil || k.ca.publicKey == nil || *k.ca.nodeID.Bytes() != k.nodeID || *k.ca.publicKey.Bytes() != k.pub || k.ca.iatMode != k.iat {
+			var n, p []byte
+			if k.ca.nodeID != nil {
+				n = k.ca.nodeID.Bytes()[:]
+			}
+			if k.ca.publicKey != nil {
+				p = k.ca.publicKey.Bytes()[:]
+			}
+			return fmt.Sprintf("VIOL[c18-args-changed-after-return]: %s held node-id %x public-key %x iat-mode %d when it was returned; after %s the same object holds node-id %x public-key %x iat-mode %d (%d cert-form parses of other certs in between)",
+				k.desc, k.nodeID, k.pub, k.iat, after, n, p, k.ca.iatMode, k.later)
+		}
+		if k.form == "cert" && k.later > 0 {
+			r.reverified++
+		}
+	}
+	for _, k := range r.servers {
+		c, _ := k.args.Get(certArg)
+		m, _ := k.args.Get(iatArg)
+		c2, _ := k.sf.Args().Get(certArg)
+		if c != k.cert || c2 != k.cert || m != k.iatStr {
+			return fmt.Sprintf("VIOL[c18-args-changed-after-return]: %s advertised cert=%s iat-mode=%s; after %s its Args() say cert=%s / %s iat-mode=%s", k.desc, k.cert, k.iatStr, after, c, c2, m)
+		}
+		if got := vf18Presented(k.sf); got != k.id || *k.sf.identityKey.Public().Bytes() != k.pubWant {
+			return fmt.Sprintf("VIOL[c18-args-changed-after-return]: %s; after %s the same factory holds %v public-key %x", k.desc, after, got, k.sf.identityKey.Public().Bytes()[:])
+		}
+	}
+	return ""
 }
